@@ -130,6 +130,17 @@ def _case(args):
                         part.fail(f"{cls}:{kind}", case, {"expected_models": len(exp), "got_models": len(got), "missing": sorted(exp - got)[:5], "extra": sorted(got - exp)[:5]})
                     else:
                         part.sample({"case": case, "models": len(got)}, limit=1)
+                    # approximate queries on the result must still cover every model (bound-based replacements of the
+                    # operands must not survive into the merged solver)
+                    if cls == "SolverHybrid" and exp:
+                        xs = sorted({i & 7 for i in exp})
+                        try:
+                            mx = r.max(uni.E["x"], exact=False)
+                            mn = r.min(uni.E["x"], exact=False)
+                            if (mx & 7) < xs[-1] or (mn & 7) > xs[0]:
+                                part.fail(f"{cls}:{kind}:approximate-bounds-exclude", case, {"x_values": xs, "approx_min": mn, "approx_max": mx})
+                        except claripy.errors.ClaripyError:
+                            part.count("approximate_query_declined")
                     # the operands must be unchanged
                     for sp, s_, M in zip(specs, ss, Ms):
                         try:
@@ -276,6 +287,12 @@ def run(tier: str) -> int:
         split_specs = specs + bridge
         for i in range(0, len(split_specs), 20):
             items.append(("split", cls, cfg, split_specs[i : i + 20]))
+    if tier == "quick":
+        # merge on the hybrid solver (exact model set + approximate bounds of the result)
+        hs = [("x<u5",), ("x<u2",), ("x==3",), (), ("x!=0", "q"), ("x<u5", "q"), ("y>u6",)]
+        work = [(None, (a, b), cp) for a, b in itertools.product(hs, hs) for cp in (("c", "!c"), ("T", "T"), ("c", "x==1"))]
+        for i in range(0, len(work), 30):
+            items.append(("merge", "SolverHybrid", {}, work[i : i + 30]))
     for res in pmap(_case3_dispatch, items):
         rep.merge(res)
     rep.counts["states"] = nstates
